@@ -14,27 +14,54 @@ def _fsm_variant():
 RAFT = {"dir": "consensus/raft", "pkgname": "raft"}
 FILES = ["raft/c01_rig_test.go", _fsm_variant(), "raft/c01_test.go", "raft/c01_r2_test.go", "raft/c17_test.go", "raft/c01_r3_test.go"]
 
+ROOT = {"dir": "", "pkgname": "ipfscluster"}
+ROOT_FILES = ["root/rig_test.go", "root/rig_c04_test.go", "root/c17_cluster_test.go", "root/c17_cluster_raft_test.go", "root/c17_probe_test.go"]
+
 SPEC = {
     "go": [dict(RAFT, files=FILES, test="TestVerifC17", n_quick=60, n_thorough=1200, shards_quick=4, shards_thorough=12,
+                timeout_quick=600, timeout_thorough=3000),
+           dict(ROOT, files=ROOT_FILES, test="TestVerifC17Cluster", n_quick=300, n_thorough=4000, shards_quick=6, shards_thorough=12,
                 timeout_quick=600, timeout_thorough=3000)],
     "rule": "generated scripts on rig R1 (real hashicorp/raft nodes in memory, real FSM and *Consensus): 1..3 initial members of 6 "
             "peer identities; AddPeer/RmPeer through the real Consensus.AddPeer/RmPeer at leader and followers (of absent, present, "
             "last, leading and own peers) interleaved with pin/unpin, snapshots, restarts; every joiner runs the real WaitForSync and "
             "is observed when it returns, some with their FSM held back (entries queued, not applied); Peers() of every live member after quiescence. non-trivial = at least two membership calls "
-            "and one acknowledged write; distinct = distinct canonical JSON of the script",
+            "and one acknowledged write; distinct = distinct canonical JSON of the script. "
+            "Cluster level (TestVerifC17Cluster, package ipfscluster): generated scripts of the REAL Cluster.PeerRemove / PeerAdd / watchPeers / Shutdown "
+            "on 1..4 of 5 peers. Rig A: struct-literal Cluster peers, each running the real watchPeers goroutine, over a recording fake of the consensus "
+            "component (scripted outcome of every RmPeer / AddPeer / LogPin; Clean = the real raft.CleanupRaft on real data folders with pre-existing backups; "
+            "what a peer's watcher sees can be frozen and released): pinsets with pins held by the removed peer, at / under / over their minimum, pin-update, "
+            "meta, expired pins; repinning on / off / follower; remove at another peer, at oneself, at a stopped peer, of an absent peer, of the last peer; RmPeer "
+            "committed / appended-but-error / refused; refused LogPin; a peer replaced (one added, it removed) between two looks of its watcher; LeaveOnShutdown; "
+            "restart; user pin / unpin in between. Rig B: peers made by the real NewCluster on the real raft.Consensus (libp2p, boltdb, file snapshots): removal of a "
+            "follower at the leader, of the leader at a follower, of oneself, of the leader by itself, of an absent peer, a joiner, shutdown of an unremoved "
+            "member (3 scripts quick, 16 thorough). non-trivial = at least two members, one PeerRemove, and a re-pin or a peer that removed itself",
     "codes": {1: "model_eq_impl (C17: membership wrappers + C01 FSM model driven by the observed schedule)",
               2: "spec_okb (C17: success = member/non-member, nothing else changes, present-add and absent-remove are successful no-ops, "
                  "the last peer is not removable, all live members report the same set)",
-              10: "spec_okb (C17 pinsets: every member = replay of a prefix; a ready joiner covers everything committed before its join returned)"},
+              10: "spec_okb (C17 pinsets: every member = replay of a prefix; a ready joiner covers everything committed before its join returned)",
+              20: "spec_okb (C17 cluster level, one operation: PeerRemove re-pins before the configuration entry and drops no pin, disabled re-pinning only "
+                  "removes, success = no member and nothing else changes, every pin the removed peer held has C10's outcome; other operations leave the pinset alone)",
+              21: "spec_okb (C17 cluster level, who runs: a peer whose own view of the peerset lacks it has stopped itself; a member has not; nobody starts by itself)",
+              22: "spec_okb (C17 cluster level, data folders at the end: a peer that stopped because it was removed (and had become ready) cleaned exactly once, its "
+                  "folder is gone and the backups are C14's rotation; a peer never out of the peerset and not leaving never cleaned, folder and backups untouched)"},
     "tags": {1: "origins-undecodable-raft", 3: "snapshot-persist-not-point-in-time", 4: "ready-before-fsm-applied"},
     "trusted": ["harness/raft/c01_rig_test.go (guard FSM, recorders, redirect service), harness/raft/c17_test.go: a removed peer is stopped by "
                 "the harness (Cluster.watchPeers/Shutdown do that in the product) and never rejoins under the same identity",
-                "hashicorp/raft v1.1.1 configuration changes (joint consensus safety, every member eventually receives the entries)"],
+                "hashicorp/raft v1.1.1 configuration changes (joint consensus safety, every member eventually receives the entries)",
+                "harness/root/c17_cluster_test.go rig A: the fake consensus component (RmPeer / AddPeer decide as raftWrapper does: absent / present no-op, last peer refused; "
+                "a stopped component refuses everything), stub host, fake tracker / tracer / monitor / IPFS; rig B cross-checks the fake against the real raft.Consensus at every run",
+                "Shutdown of the monitor, APIs, IPFS connector, tracker, informers and tracer succeeds (an error there makes Cluster.Shutdown return before doneCh is closed)"],
     "level_text": "Theorems (Props/C17.v) over the Gallina transcription of raftWrapper.AddPeer/RemovePeer, the Consensus.AddPeer/RmPeer retry "
                   "loops, Peers() and WaitForSync for every log, every peer, every per-attempt outcome of hashicorp/raft and every schedule of "
-                  "receive/apply/install/restart events; the transcription is driven by what real Raft nodes did at every run",
-    "level_note": "partial: joint-consensus safety and eventual delivery are hashicorp/raft's; the cluster-level part (PeerAdd/Join/PeerRemove/"
-                  "watchPeers self-shutdown, data folder cleanup, re-pinning before removal) is not exercised by this check",
+                  "receive/apply/install/restart events; the transcription is driven by what real Raft nodes did at every run. Cluster level: theorems over a "
+                  "machine (Model/C17_Cluster.v) of PeerRemove (C10's re-pin loop, then the membership wrapper), PeerAdd, Join, watchPeers ticks, Shutdown "
+                  "(leave, snapshot, clean = C14's cleanup), restart and user calls, for every event list: ordering of re-pins before the configuration entry, no pin "
+                  "dropped, disabled re-pinning only removes, a removed peer stops and cleans (one more backup per C14), an unremoved peer keeps its data; compared with "
+                  "the real Cluster methods at every run",
+    "level_note": "partial: joint-consensus safety and eventual delivery of configuration entries (also to the removed peer) are hashicorp/raft's; the per-pin "
+                  "re-homing statement carries C10's guard (pins made by pin-update: finding repin-update-redirect); 'an unremoved peer never cleans' holds for peers "
+                  "without LeaveOnShutdown (with it the data is cleaned even when leaving failed: refuted/partial pair, reproduced on both rigs)",
     "assumptions": ["every member receives the one committed log in index order; a snapshot carries the configuration of its index",
                     "C01: clean ops are applied as plain writes (raft_prefix_invariant_partial)"],
 }
